@@ -147,6 +147,9 @@ func (e *Expression) UnmarshalYAML(unmarshal func(interface{}) error) error {
 
 func (e Expression) ToProto() (*pb.NodeProto, error) {
 	p, err := e.AnyExpression.ToProto()
+	if err != nil {
+		return nil, err
+	}
 	p.Name = e.Name
 	p.Begin = int32(e.Begin)
 	p.End = int32(e.End)
